@@ -152,7 +152,7 @@ func sessionCase(c *core.Ctx, r *core.Result, j *core.Journal, idx int, rng *ran
 
 func runSessionImpl(c *core.Ctx, r *core.Result) {
 	j := core.NewJournal(c, c.Workers+1)
-	core.Each(c, r, "session", c.N(5000, 1500000), func(i int, rng *rand.Rand) { sessionCase(c, r, j, i, rng, false) })
+	core.Each(c, r, "session", c.N(5000, 400000), func(i int, rng *rand.Rand) { sessionCase(c, r, j, i, rng, false) })
 }
 
 func init() {
